@@ -14,6 +14,13 @@
 (* set_amplifier_voa: operational values are consumed when present, delta_p is exported including the output    *)
 (* VOA, the SRS estimation reads simParams).  Export rounds gains to the export grid.  The document carries a   *)
 (* ghost flag `aged`: the ageing margin EOL is part of a designed fibre's con_out and is not added again.       *)
+(* The ingress ROADM equalises either in power, in power spectral density (mW/GHz) or in power per slot width:  *)
+(* `roadm.def` is its default flavour, `roadm.deg` the target of the degree the line leaves from and           *)
+(* `roadm.other` that of its second degree ("none" = not given: SetRoadmTargets copies the default to it, so a  *)
+(* designed ROADM may hold per-degree targets of several flavours side by side).  `roadm.restrict`: the ROADMs  *)
+(* only permit a low-gain amplifier model on the line.  An amplifier whose model is not `known` is selected by  *)
+(* the design (select_edfa): when no permitted model reaches the gain, gain and delta_p are reduced by what is  *)
+(* missing; the designed (and exported) amplifier has a known model.                                            *)
 (* Integer units are arbitrary (think 0.5 dB).                                                                  *)
 EXTENDS GnpyBase, TLC
 
@@ -26,7 +33,7 @@ CONSTANTS Docs,          \* input documents
 VARIABLES doc0,          \* the document the user supplied
           doc,           \* the document being designed (input of the current Design, settings filled in as it goes)
           cfg,
-          pc,            \* "fibre" "pad" "rsave" "rtemp" "rsolve" "rrestore" "amp1" "amp2" "designed" "exported" "end"
+          pc,            \* "roadm" "fibre" "pad" "rsave" "rtemp" "rsolve" "rrestore" "amp1" "amp2" "designed" "exported" "end"
           round,         \* 0 first design, 1 twin design of the same input, 2.. redesigns of reloaded exports
           carry,         \* net reference offset handed from one amplifier to the next (prev_dp - prev_voa)
           rgain,         \* estimated Raman gain of the span (0 when there is none)
@@ -56,33 +63,53 @@ PMax == 3                                                                       
 LibPower == 0                                                                          \* SI power_dbm of the library
 \* the reference power of a design is the library's SI power unless the call gives one; saturation reduces the offset
 Reduce(dp, refPower) == dp - MaxI(0, refPower + dp - PMax)
+\* ROADM equalisation flavours; egress offset of the reference carrier from the reference power under each of them
+Flavours == {"power", "psd", "psw"}
+NoTarget == "none"
+Offset(kind) == IF kind = "psd" THEN -1 ELSE IF kind = "psw" THEN 1 ELSE 0
+\* highest gain an amplifier model that the design may select can give
+GainLimit(d) == IF d.roadm.restrict THEN 12 ELSE 100
 Dev == IF simParams.flag THEN 1 ELSE 0                                                 \* SRS estimation depends on simParams
 RoundTo(x) == IF x = NONE THEN NONE ELSE (x \div Grid) * Grid
 
-AmpDesign(a, prevLoss, prevNet, nextLoss) ==
+AmpDesign(a, prevLoss, prevNet, nextLoss, gainLimit) ==
     LET voa0 == IF a.voa = NONE THEN 0 ELSE a.voa
         dp0  == Reduce(IF a.dp = NONE THEN Rule(nextLoss) + voa0 ELSE a.dp, lib.power)
         useGain == a.gain # NONE /\ ~cfg.powerMode
-        gain1 == IF useGain THEN a.gain ELSE prevLoss + Dev + dp0 - prevNet
-        dp1  == IF useGain THEN prevNet - (prevLoss + Dev) + gain1 ELSE dp0
+        gain0 == IF useGain THEN a.gain ELSE prevLoss + Dev + dp0 - prevNet
+        dpg   == IF useGain THEN prevNet - (prevLoss + Dev) + gain0 ELSE dp0
+        \* select_edfa: a model left to the design is chosen among the permitted ones; what they lack in gain is taken
+        \* from the gain and from the power target, whoever set them
+        red   == IF a.known THEN 0 ELSE MinI(0, gainLimit - gain0)
+        gain1 == gain0 + red
+        dp1   == dpg + red
         auto == IF a.voa = NONE /\ cfg.powerMode THEN MaxI(0, MinI(AutoVoa, PMax - lib.power - dp1)) ELSE 0   \* only the headroom
-    IN [amp |-> [gain |-> gain1 + auto, dp |-> IF cfg.powerMode THEN dp1 + auto ELSE NONE, voa |-> voa0 + auto],
+    IN [amp |-> [gain |-> gain1 + auto, dp |-> IF cfg.powerMode THEN dp1 + auto ELSE NONE, voa |-> voa0 + auto,
+                 known |-> TRUE],
         net |-> dp1 - voa0]
 
 -----------------------------------------------------------------------------
 Init == /\ doc0 \in Docs /\ cfg \in Cfgs /\ simParams \in Sims
         /\ doc = doc0 /\ sim0 = simParams /\ simEntry = simParams /\ saved = simParams
-        /\ pc = "fibre" /\ round = 0 /\ carry = 0 /\ rgain = 0
+        /\ pc = "roadm" /\ round = 0 /\ carry = 0 /\ rgain = 0
         /\ exports = <<>> /\ twin = NoDoc /\ props = <<>>
         /\ lib = [power |-> LibPower]
         /\ proc \in {"fresh", "used"} /\ effective = <<0, 0>> /\ reexport = NoDoc
+
+\* set_roadm_per_degree_targets: a degree without a target of its own gets the ROADM default, in the default's flavour
+SetRoadmTargets ==
+    /\ pc = "roadm"
+    /\ doc' = [doc EXCEPT !.roadm.deg = IF @ = NoTarget THEN doc.roadm.def ELSE @,
+                          !.roadm.other = IF @ = NoTarget THEN doc.roadm.def ELSE @]
+    /\ pc' = "fibre" /\ simEntry' = simParams
+    /\ UNCHANGED <<doc0, cfg, round, carry, rgain, exports, twin, props, simParams, sim0, saved, lib, proc, effective, reexport>>
 
 CompleteFibre ==
     /\ pc = "fibre"
     /\ doc' = [doc EXCEPT !.conOut = (IF @ = NONE THEN DefaultConOut ELSE @) + (IF doc.aged THEN 0 ELSE cfg.eol),
                           !.aged = TRUE]
-    /\ pc' = "pad" /\ simEntry' = simParams
-    /\ UNCHANGED <<doc0, cfg, round, carry, rgain, exports, twin, props, simParams, sim0, saved, lib, proc, effective, reexport>>
+    /\ pc' = "pad"
+    /\ UNCHANGED <<doc0, cfg, round, carry, rgain, exports, twin, props, simParams, sim0, simEntry, saved, lib, proc, effective, reexport>>
 
 Pad ==
     /\ pc = "pad"
@@ -104,20 +131,20 @@ RamanRestore == pc = "rrestore" /\ simParams' = saved /\ pc' = "amp1"
 
 SetAmp1 ==
     /\ pc = "amp1"
-    /\ LET r == AmpDesign(doc.amps[1], 0, 0, BaseLoss(doc) - rgain)
+    /\ LET r == AmpDesign(doc.amps[1], 0, Offset(doc.roadm.deg), BaseLoss(doc) - rgain, GainLimit(doc))
        IN doc' = [doc EXCEPT !.amps[1] = r.amp] /\ carry' = r.net
     /\ pc' = "amp2"
     /\ UNCHANGED <<doc0, cfg, round, rgain, exports, twin, props, simParams, sim0, simEntry, saved, lib, proc, effective, reexport>>
 
 SetAmp2 ==
     /\ pc = "amp2"
-    /\ LET r == AmpDesign(doc.amps[2], BaseLoss(doc) - rgain, carry, 0)
+    /\ LET r == AmpDesign(doc.amps[2], BaseLoss(doc) - rgain, carry, 0, GainLimit(doc))
        IN doc' = [doc EXCEPT !.amps[2] = r.amp] /\ carry' = r.net
     /\ pc' = "designed"
     /\ UNCHANGED <<doc0, cfg, round, rgain, exports, twin, props, simParams, sim0, simEntry, saved, lib, proc, effective, reexport>>
 
 Exported(d) == [d EXCEPT !.amps = [k \in 1..2 |-> [d.amps[k] EXCEPT !.gain = RoundTo(@)]]]
-Propagation(d) == d.amps[1].gain + d.amps[2].gain - BaseLoss(d) + rgain
+Propagation(d) == Offset(d.roadm.deg) + d.amps[1].gain + d.amps[2].gain - BaseLoss(d) + rgain
 
 Export ==
     /\ pc = "designed"
@@ -148,18 +175,20 @@ Load ==
     /\ pc = (IF round = 0 THEN "elsewhere" ELSE "exported")
     /\ IF Len(exports) > MaxRounds THEN pc' = "end" /\ UNCHANGED <<doc, round>>
        ELSE /\ doc' = IF round = 0 THEN doc0 ELSE exports[Len(exports)]
-            /\ round' = round + 1 /\ pc' = "fibre"
+            /\ round' = round + 1 /\ pc' = "roadm"
     /\ carry' = 0
     /\ UNCHANGED <<doc0, cfg, rgain, exports, twin, props, simParams, sim0, simEntry, saved, lib, proc, effective, reexport>>
 
-Next == PropagateAndReexport \/ DesignElsewhere \/ CompleteFibre \/ Pad \/ RamanSave \/ RamanSetTemp \/ RamanSolve \/ RamanRestore \/ SetAmp1 \/ SetAmp2
+Next == PropagateAndReexport \/ DesignElsewhere \/ SetRoadmTargets \/ CompleteFibre \/ Pad \/ RamanSave \/ RamanSetTemp \/ RamanSolve \/ RamanRestore \/ SetAmp1 \/ SetAmp2
         \/ Export \/ Load
 Spec == Init /\ [][Next]_vars
 
 -----------------------------------------------------------------------------
 (* The clauses of C17.                                                                                         *)
 SameDoc(a, b) == /\ a.conOut = b.conOut /\ a.attIn = b.attIn /\ a.base = b.base /\ a.raman = b.raman
+                 /\ a.roadm = b.roadm
                  /\ \A k \in 1..2 : /\ a.amps[k].dp = b.amps[k].dp /\ a.amps[k].voa = b.amps[k].voa
+                                    /\ a.amps[k].known = b.amps[k].known
                                     /\ Within(a.amps[k].gain, b.amps[k].gain, Grid)
 \* export, reload, redesign changes nothing (to the export's rounding), for any number of rounds
 Fixpoint == \A k \in 1..(Len(exports) - 1) : SameDoc(exports[k], exports[k + 1])
@@ -179,5 +208,7 @@ LibraryUnchanged == lib = [power |-> LibPower]
 \* design settles every setting
 EverythingDesigned == pc = "designed" =>
     /\ doc.conOut # NONE
+    /\ doc.roadm.deg \in Flavours /\ doc.roadm.other \in Flavours
+    /\ \A k \in 1..2 : doc.amps[k].known
     /\ \A k \in 1..2 : doc.amps[k].gain # NONE /\ doc.amps[k].voa # NONE /\ (cfg.powerMode => doc.amps[k].dp # NONE)
 ==============================================================================
